@@ -191,7 +191,7 @@ def _inductive(v, prop):
 
 
 def check_C03(tier):
-    v = run_level_check("C03", tier, ["core_det", "core_noisy", "cons", "optvar", "script"],
+    v = run_level_check("C03", tier, ["core_det", "core_noisy", "cons", "optvar", "optvar2", "script"],
                         design_cfgs=("BadsRun.cfg", "BadsRun_noisy.cfg"))
     _inductive(v, "C03")
     return v
@@ -223,7 +223,7 @@ def check_C19run(tier):
 
 
 def check_C09(tier):
-    return run_level_check("C09", tier, ["core_det", "core_noisy", "cons", "steer", "optvar"], level="exploration",
+    return run_level_check("C09", tier, ["core_det", "core_noisy", "cons", "steer", "optvar", "optvar2"], level="exploration",
                            design_cfgs=("BadsRun.cfg",))
 
 
@@ -298,11 +298,11 @@ def check_C10(tier):
 
 
 def check_C14run(tier):
-    return run_level_check("C14", tier, ["core_det", "core_noisy", "optvar"], design_cfgs=())
+    return run_level_check("C14", tier, ["core_det", "core_noisy", "optvar", "optvar2"], design_cfgs=())
 
 
 def check_C15(tier):
-    return run_level_check("C15", tier, ["core_det", "core_noisy", "cons"], design_cfgs=())
+    return run_level_check("C15", tier, ["core_det", "core_noisy", "cons", "optvar2"], design_cfgs=())
 
 
 def check_C17run(tier):
